@@ -20,22 +20,7 @@ F = Fraction
 
 
 # ---------------------------------------------------------------- nestable watchdog
-@contextlib.contextmanager
-def guard(seconds):
-    """Like bridge.watchdog, but restores an enclosing timer (the engine's per-case timeout) on exit."""
-    def handler(signum, frame):
-        raise Timeout(f"no result after {seconds}s")
-
-    t0 = time.perf_counter()
-    old_handler = signal.signal(signal.SIGALRM, handler)
-    old_left, _ = signal.setitimer(signal.ITIMER_REAL, seconds)
-    try:
-        yield
-    finally:
-        signal.setitimer(signal.ITIMER_REAL, 0)
-        signal.signal(signal.SIGALRM, old_handler)
-        if old_left:
-            signal.setitimer(signal.ITIMER_REAL, max(0.05, old_left - (time.perf_counter() - t0)))
+from .bridge_light import watchdog as guard   # noqa: E402  (CPU-time budget, wall-clock backstop, restores enclosing watchdogs)
 
 
 def gcall(seconds, f, *a, **k):
